@@ -113,7 +113,7 @@ pub fn aim(w: &World, d: Dir) -> Aim {
                     a.partial.push((*id, m.mid, m.parts));
                 }
             }
-            let cur = cm.msgs.iter().find(|m| m.obtained == 0).map(|m| m.mid).unwrap_or(cm.id_base + cm.msgs.len() as u64);
+            let cur = cm.msgs.iter().find(|m| m.obtained == 0).map(|m| m.mid).unwrap_or(cm.mid_of(cm.msgs.len()));
             a.cursors.push((*id, cur));
         } else {
             for (sid, (n, _)) in cm.partial_seen.iter() {
